@@ -577,10 +577,19 @@ def clear_resets(prog, chk, rid, classes=tuple(NODE)):
                     st2 = nstores(f, roles)
                     lb = loop_blocks(f, ev[0][0]) or set()
                     inloop = lambda s: (f.node_pos(s.node) or (None,))[0] in lb
-                    if not any(l == "$R->prev" and r == "this->freeItem" and inloop(s) for s, l, r in st2) or \
-                       not any(l == "this->freeItem" and r == "$R" and inloop(s) for s, l, r in st2):
+                    evp = f.node_pos(ev[0][0])
+
+                    def each_iteration(pred):
+                        """the store lies on every path from the destructor call to the next iteration / the loop exit"""
+                        pos = q.pos_of(f, [s.node for s, l, r in st2 if pred(l, r) and inloop(s)])
+                        if not pos or evp is None:
+                            return False
+                        targets = {evp} | set((b, 0) for b in f.blocks if b not in lb)
+                        return f.find_path(evp, targets, avoid=pos) is None
+                    if not each_iteration(lambda l, r: l == "$R->prev" and r == "this->freeItem") or \
+                       not each_iteration(lambda l, r: l == "this->freeItem" and r == "$R"):
                         miss.append("recycle of each node (prev = freeItem; freeItem = node)")
-                    if d["hash"] and not any(l == "*$R->cell" and r == "0" and inloop(s) for s, l, r in st2):
+                    if d["hash"] and not each_iteration(lambda l, r: l == "*$R->cell" and r == "0"):
                         # alternative: the whole bucket array is zero-filled
                         if not any("Memory::zero(this->data" in f.r(i) for i in q.calls(f)):
                             miss.append("bucket head reset (*node->cell = 0)")
